@@ -580,6 +580,9 @@ func checkLoops(c *Ctx, fs []*ssa.Function) {
 				}
 			}
 			if cls == "" {
+				cls, why = structuralLoopClass(c, f, h, loop)
+			}
+			if cls == "" {
 				if reason, ok := loopExceptions[fn]; ok {
 					cls, why = "table", reason
 				}
@@ -949,4 +952,102 @@ func wrapsValue(r, v ssa.Value, d int) bool {
 		}
 	}
 	return false
+}
+
+// structuralLoopClass recognises two loop shapes by what they do rather than by where they are:
+//   - "consumes": the loop condition tests len(x) of a loop-carried slice x that every iteration re-slices forward by a positive
+//     constant (x = x[k:]): the length strictly decreases;
+//   - "nonblocking-drain": the loop calls Recvfrom with MSG_DONTWAIT and is left when that call's byte count is negative: it ends
+//     as soon as the queue is empty (that the queue cannot grow meanwhile is R08.3's attach order).
+func structuralLoopClass(c *Ctx, f *ssa.Function, h *ssa.BasicBlock, loop map[*ssa.BasicBlock]bool) (string, string) {
+	for b := range loop {
+		for _, in := range b.Instrs {
+			switch x := in.(type) {
+			case *ssa.Phi:
+				if b != h {
+					continue
+				}
+				if _, isSlice := x.Type().Underlying().(*types.Slice); !isSlice {
+					continue
+				}
+				shrinks := false
+				for _, e := range x.Edges {
+					if sl, ok := e.(*ssa.Slice); ok && sl.X == ssa.Value(x) && sl.High == nil {
+						if cst, ok := sl.Low.(*ssa.Const); ok && cst.Value != nil && cst.Int64() > 0 && loop[sl.Block()] {
+							shrinks = true
+						}
+					}
+				}
+				if !shrinks {
+					continue
+				}
+				// some exit condition of the loop tests len(x)
+				for lb := range loop {
+					iff, ok := lb.Instrs[len(lb.Instrs)-1].(*ssa.If)
+					if !ok {
+						continue
+					}
+					if bo, ok := iff.Cond.(*ssa.BinOp); ok {
+						for _, side := range []ssa.Value{bo.X, bo.Y} {
+							if call, ok := side.(*ssa.Call); ok {
+								if bi, ok := call.Common().Value.(*ssa.Builtin); ok && bi.Name() == "len" && call.Common().Args[0] == ssa.Value(x) && (!loop[lb.Succs[0]] || !loop[lb.Succs[1]]) {
+									return "consumes", "every iteration re-slices the tested slice forward by a positive constant"
+								}
+							}
+						}
+					}
+				}
+			case *ssa.Call:
+				cal := x.Common().StaticCallee()
+				if cal == nil || cal.Name() != "Recvfrom" || len(x.Common().Args) < 3 {
+					continue
+				}
+				flags, ok := x.Common().Args[2].(*ssa.Const)
+				if !ok || flags.Value == nil || flags.Int64()&0x40 == 0 { // MSG_DONTWAIT
+					continue
+				}
+				// an exit of the loop depends on the call's first result
+				for lb := range loop {
+					iff, ok := lb.Instrs[len(lb.Instrs)-1].(*ssa.If)
+					if !ok || (loop[lb.Succs[0]] && loop[lb.Succs[1]]) {
+						continue
+					}
+					dep := false
+					var visit func(v ssa.Value, d int)
+					visit = func(v ssa.Value, d int) {
+						if d > 5 || dep || v == nil {
+							return
+						}
+						switch y := v.(type) {
+						case *ssa.Extract:
+							if y.Tuple == ssa.Value(x) && y.Index == 0 {
+								dep = true
+							}
+						case *ssa.BinOp:
+							visit(y.X, d+1)
+							visit(y.Y, d+1)
+						case *ssa.Phi:
+							for _, e := range y.Edges {
+								visit(e, d+1)
+							}
+						case *ssa.UnOp:
+							visit(y.X, d+1)
+							if a, ok := y.X.(*ssa.Alloc); ok {
+								for _, r := range *a.Referrers() {
+									if st, ok := r.(*ssa.Store); ok && st.Addr == ssa.Value(a) {
+										visit(st.Val, d+1)
+									}
+								}
+							}
+						}
+					}
+					visit(iff.Cond, 0)
+					if dep {
+						return "nonblocking-drain", "drains with MSG_DONTWAIT and leaves when nothing is queued"
+					}
+				}
+			}
+		}
+	}
+	return "", ""
 }
